@@ -473,6 +473,10 @@ impl Inst {
         cb.request_timeout(Duration::from_millis(60));
         cb.query_peer_timeout(Duration::from_secs(3600));
         cb.query_timeout(Duration::from_secs(7200));
+        // local identities k…996 cut their lookups off after 250 ms (of the real clock: profile C09cutoff)
+        if seed % 1000 == 996 {
+            cb.query_timeout(Duration::from_millis(250));
+        }
         cb.enr_peer_update_min(vote_min.max(2));
         if filter == Filter::Rej {
             cb.table_filter(filter_rej);
@@ -1817,6 +1821,18 @@ impl Runner for ServiceRunner {
                 }
                 out.push(format!("!OP sidle {} t={}{}", x, tok, sfx));
                 self.finish(x, "sidle", None, so, None, out, stats);
+            }
+            // nothing happens for MS milliseconds - of the real clock (the lookups' deadlines) and of the
+            // runtime's clock alike; the service is not woken
+            ["srealsleep", _, ms] => {
+                let ms: u64 = ms.parse().unwrap_or(0).min(5_000);
+                std::thread::sleep(Duration::from_millis(ms));
+                if let Some(rt) = self.rt.as_ref() {
+                    rt.block_on(async { tokio::time::sleep(Duration::from_millis(ms)).await });
+                }
+                stats.bump("s.c09.silence-on-both-clocks");
+                out.push(format!("!OP srealsleep {}", x));
+                out.push("ok".into());
             }
             // from now on the application writes to the local record (a field of its own, through the shared
             // `external_enr`) from another thread while PONGs are processed
@@ -3507,6 +3523,29 @@ pub fn gen_case(rng: &mut Rng, tier: &str, profile: &str, stats: &mut Stats) -> 
     }
     if profile == "C16" {
         gen_c16(rng, &mut ops, stats);
+        return ops;
+    }
+    if profile == "C09cutoff" {
+        // a lookup whose peers stay silent on a node where nothing else happens: the query timeout (250 ms)
+        // passes, and a second more; then something wakes the service (a PING comes in): the lookup is cut
+        // off and its result - whatever it has - is handed to the caller, who is still waiting for it
+        stats.bump("gen.c09.cut-off-on-an-idle-node");
+        ops.push("snew A k996 1 4 0 ip4 all 16 16 0".to_string());
+        let n = rng.range(1, 5);
+        for i in 0..n {
+            ops.push(format!("sest A k{}:1:4:0 = {}", 300 + i * 7 + rng.below(5), if rng.chance(1, 2) { "o" } else { "i" }));
+        }
+        ops.push(format!("squery A {}{}", hex::encode(rng.bytes(32)), if rng.chance(1, 3) { " 4" } else { "" }));
+        if rng.chance(1, 2) {
+            // one peer answers (with nothing), the others stay silent
+            ops.push("sresp A #q ok nodes 1 -".into());
+        }
+        ops.push(format!("srealsleep A {}", rng.range(1400, 1800)));
+        ops.push(format!("sreq A k{} {} {} ping 1", 900, peer_addr(900, "ip4"), rid_tok(rng)));
+        ops.push("sidle A 10".into());
+        // (one of the silent peers' requests runs into its timeout: the step that looks at the caller's end)
+        ops.push("sfail A #q".into());
+        ops.push("stable A".into());
         return ops;
     }
     if profile == "C09conc" {
